@@ -176,17 +176,19 @@ def run(C, R):
             if fn['kind'] == 'closure' or not fn['path'].lstrip('<').startswith('channel::mpmc'):
                 continue
             if not any(b['term']['k'] == 'call' and 'fn' in b['term']['func'] and
-                       b['term']['func']['fn']['name'] in ('clear', 'pop') for b in fn['blocks'] if not b['cleanup']):
+                       b['term']['func']['fn']['name'] in ('clear', 'pop', 'lock') for b in fn['blocks'] if not b['cleanup']):
                 continue
             if fn.get('impl_adt') == STATE:
                 continue     # the state functions themselves: R2 (delivery) and C08.R2 (what clear does)
             for path in E.run(fn['path']):
                 if path.exit != 'return':
                     continue
-                disc = [e for e in path.events if e['k'] == 'call' and (
+                disc = [e for e in path.events if (e['k'] == 'call' and (
                     (e['name'] == 'clear' and e.get('mode') == 'inline' and 'ChannelState' in e['callee']) or
                     (e['name'] == 'pop' and 'RingBuf' in e.get('callee', '') and e.get('fn') == fn['path']
-                     and not contains(path.ret, e['ret'])))]
+                     and not contains(path.ret, e['ret'])))) or
+                    (e['k'] in ('replace', 'write') and e.get('loc') and fields_of(e['loc'])[-1:] == ('buffer',)
+                     and '<locked>' in e['loc'])]     # the whole buffer swapped out
                 if not disc:
                     continue
                 n8 += 1
